@@ -2,8 +2,10 @@
 which trace spec validates their events."""
 import json
 import os
+import subprocess
+import sys
 
-from vlib import (Check, ToolError, TRUSTED, build_harness, log, run_driver, tlc_mc, tlc_trace,
+from vlib import (VERIF, Check, ToolError, TRUSTED, build_harness, log, run_driver, tlc_mc, tlc_trace,
                   workdir)
 
 REGISTRY = {}
@@ -435,6 +437,18 @@ def c16(a):
     c = Check("C16", a.tier, a.seed)
     workdir("C16")
     binary = build_harness()
+    if not a.replay:
+        # the spec's strftime against the C library's, before it judges jiff
+        wd = os.path.join(workdir("C16", fresh=False), "glibc")
+        os.makedirs(wd, exist_ok=True)
+        trace = os.path.join(wd, "glibc.ndjson")
+        n = 4000 if a.tier == "quick" else 150000
+        subprocess.run([sys.executable, os.path.join(VERIF, "lib", "glibc_oracle.py"), trace, str(n), str(a.seed)], check=True)
+        gres, mism = tlc_trace("Trace_Strtime.tla", [trace], "C16")
+        if mism:
+            raise ToolError(f"Strtime.tla disagrees with glibc strftime on {len(mism)} events, e.g. {(mism[0][3] or {}).get('sfmt')} -> {(mism[0][3] or {}).get('s')!r}")
+        c.add_summary({"stem": "glibc", "events": sum(1 for _ in open(trace)), "files": [trace], "classes": {"glibc-oracle": sum(1 for _ in open(trace))},
+                       "distinct_nontrivial": 0, "samples": {}})
     drive_and_validate(c, a, binary, "c16", "Trace_Strtime.tla")
     c.rule = ("fmt: every conversion specifier x flag (_ - 0 ^ #) x width on values of every type, every plain specifier on "
               "seeded values (instants over the whole range, zones with sub-hour / sub-minute / extreme offsets) and on the "
